@@ -13,7 +13,7 @@ G1(e, subj) == /\ subj.fam = "tm" /\ subj.variant = "unsafe_drops"
                /\ e.op = "release_cb"
                /\ \E m \in DOMAIN mgrs : mgrs[m].addr = e.addr /\ ~mgrs[m].alive
                /\ ~(\E m \in DOMAIN mgrs : mgrs[m].addr = e.addr /\ mgrs[m].alive)
-KF1(e, subj) == G1(e, subj) /\ UNCHANGED <<live, mgrs, freed>>
+KF1(e, subj) == G1(e, subj) /\ UNCHANGED <<live, mgrs, freed, lfl, pend>>
 
 DevApplies(id, e, subj) == id = "C16-KF1" /\ G1(e, subj)
 KnownDeviation(id, e, subj) == id = "C16-KF1" /\ KF1(e, subj)
